@@ -545,6 +545,29 @@ theorem translate_keeps_cells (m : Mesh) (hm : m.Inv) (v : List Rat) (b : Bool) 
   refine ⟨hn', ?_⟩
   unfold Mesh.cellAt Mesh.nAt; rw [he, hn']
 
+/-- `true` for the two steps that do not turn the object -/
+def Op.noTurn : Op → Bool
+  | .rotate90 .. => false
+  | _ => true
+
+/-- **any history without rotations keeps the cell counts**: translations and scalings (any factors,
+any reference points, in place or copying, rejected steps skipped) never change `n` -/
+theorem unturned_history_keeps_n (m : Mesh) (hm : m.Inv) (ops : List Op)
+    (hall : ∀ op ∈ ops, Op.noTurn op = true) : (runM m ops).n = m.n := by
+  induction ops generalizing m with
+  | nil => rfl
+  | cons op ops ih =>
+    have hop := hall op List.mem_cons_self
+    have hall' : ∀ o ∈ ops, Op.noTurn o = true := fun o ho => hall o (List.mem_cons_of_mem _ ho)
+    unfold runM
+    cases hstep : stepM m op with
+    | error e => exact ih m hm hall'
+    | ok p =>
+      obtain ⟨recv, ret⟩ := p
+      obtain ⟨_, hri, hn, _⟩ := stepM_region_n m hm op recv ret hstep
+      have : opN m op = m.n := by cases op <;> simp_all [opN, Op.noTurn]
+      exact (ih ret hri hall').trans (hn.trans this)
+
 /-- **"cell·n equals the region edges" after every history**: for every mesh reached by any
 finite history, on every axis the count is positive and `n · cell = pmax − pmin` exactly -/
 theorem cells_tile_after_history (m : Mesh) (hm : m.Inv) (ops : List Op) (a : Nat) (ha : a < (runM m ops).ndim) :
